@@ -240,7 +240,10 @@ class TTGlyphPen(_TTGlyphBasePen, LoggingPen):
             startPt = 0
             if self.endPts:
                 startPt = self.endPts[-1] + 1
-            if self.points[startPt] == self.points[endPt]:
+            if (
+                self.points[startPt] == self.points[endPt]
+                and self.types[startPt] == self.types[endPt] == flagOnCurve
+            ):
                 self._popPoint()
                 endPt -= 1
 
